@@ -102,6 +102,8 @@ def parseTrace : Bool → List Bytes → List Ev
   | _, [] => []
   | a, b :: rest =>
     match parseTraceEv a b with
+    -- the server saw a complete DATA payload before the end-of-data marker
+    | (some .eod, a') => .content 0 true :: .eod :: parseTrace a' rest
     | (some e, a') => e :: parseTrace a' rest
     | (none, a') => parseTrace a' rest
 
